@@ -479,7 +479,62 @@ def case_notation(case, col=None):
                 raise Violation("parsed_measurements_not_independent:one_expression", f"'{text} + {text}' -> {t!r}; two independent terms give +/- {math.sqrt(2) * float(std)!r}")
 
 
+NAN_TEXTS = [("(8.0 +/- nan)e-07 m", 8e-7, None), ("(nan +/- 5.0)e-07 m", None, 5e-7), ("(8.0 +/- nan) m", 8.0, None), ("(nan +/- 5.0)e+03 m", None, 5e3), ("(2.5 +/- nan)e+02 s", 250.0, None),
+             ("(nan +/- nan)e-07 m", None, None), ("(8.0 +/- 0.5)e-07 m", 8e-7, 5e-8)]
+
+
+def case_nan_notation(case, col=None):
+    """what format() writes for a measurement whose value or error is nan - '(8.0 +/- nan)e-07 m' - reads back: the exponent belongs to the finite side"""
+    import math
+
+    ureg = env.ureg("float")
+    text, nom, std = NAN_TEXTS[case["i"]]
+    if col is not None:
+        col.case(("nn", text), True, sample={"text": text}, cls="nan_notation")
+    s_, q = attempt(ureg.parse_expression, text)
+    if s_ == "err":
+        raise Violation(f"uncertainty_notation_refused:nan:{exc_class(q)}", f"{text!r}: {q!r}")
+    m = q.magnitude
+    for tag, got, want in (("nominal", getattr(m, "nominal_value", m), nom), ("std_dev", getattr(m, "std_dev", 0.0), std)):
+        ok = math.isnan(got) if want is None else close(got, want)
+        if not ok:
+            raise Violation(f"uncertainty_wrong_{tag}:nan_with_exponent", f"{text!r} -> {tag} {got!r}, expected {'nan' if want is None else want}")
+    # and it is what formatting such a measurement writes
+    if nom is not None and std is None and "e-07" in text:
+        rendered = format(ureg.Measurement(8e-7, float("nan"), "m"), "")
+        s2, q2 = attempt(ureg.parse_expression, rendered)
+        if s2 == "err" or not close(q2.magnitude.nominal_value, 8e-7):
+            raise Violation("uncertainty_wrong_nominal:nan_with_exponent:rendered", f"format(Measurement(8e-7, nan, 'm')) = {rendered!r} parses to {q2!r}")
+
+
+def case_uncertain_zero(case, col=None):
+    """a bare uncertain number whose nominal value is 0 is not the exact number zero: next to a dimensional quantity it is refused like the same number
+    with any other nominal value (only the exact 0 - and nan - may be added to or compared with anything)"""
+    import operator
+
+    from uncertainties import ufloat
+
+    ureg = env.ureg("float")
+    q = ureg.Measurement(5.0, 0.1, "meter") if case["left"] == "measurement" else ureg.Quantity(5.0, "meter")
+    ops = {"add": operator.add, "sub": operator.sub, "radd": lambda a, b: b + a, "rsub": lambda a, b: b - a, "gt": operator.gt, "le": operator.le, "eq": operator.eq}
+    if col is not None:
+        col.case(("uz", case["left"], case["op"]), True, sample=case, cls="uncertain_zero")
+    r0 = attempt(ops[case["op"]], q, ufloat(0.0, 0.3))
+    r1 = attempt(ops[case["op"]], q, ufloat(1.0, 0.3))
+    if case["op"] == "eq":
+        if r0[0] == "ok" and r1[0] == "ok" and bool(r0[1]) != bool(r1[1]):
+            raise Violation("uncertain_zero_treated_as_exact_zero:eq", f"{q!r} == ufloat(0, 0.3) -> {r0[1]!r}; == ufloat(1, 0.3) -> {r1[1]!r}")
+        return
+    if r0[0] != r1[0] or (r0[0] == "err" and type(r0[1]) is not type(r1[1])):
+        raise Violation(f"uncertain_zero_treated_as_exact_zero:{case['op']}", f"{q!r} {case['op']} ufloat(0, 0.3) -> {r0[1]!r}; with ufloat(1, 0.3) -> {r1[1]!r}")
+
+
 def run_notation(task, tier, seed, col):
+    for i in range(len(NAN_TEXTS)):
+        col.run_case(lambda c: case_nan_notation(c, col), {"i": i})
+    for left in ("measurement", "quantity"):
+        for op in ("add", "sub", "radd", "rsub", "gt", "le", "eq"):
+            col.run_case(lambda c: case_uncertain_zero(c, col), {"left": left, "op": op})
     strat = st.builds(lambda nom, err, exp, unit, nt, neg: {"nom": nom, "err": err, "exp": exp, "unit": unit, "notation": nt, "neg": neg},
                       st.sampled_from(["8.0", "1.25", "100", "0.5", "12.345", "3", "250", "0.200", "7000"]), st.sampled_from(["4.0", "0.05", "10", "0.25", "0.012", "1", "25", "0.010", "300"]),
                       st.sampled_from([None, None, 6, -6, 2, -3, 3, 12]), st.sampled_from(["m", "", "kg/s", "coulomb", "second"]), st.sampled_from(NOTATIONS), st.booleans())
@@ -545,4 +600,8 @@ def run_task(task, tier, seed, col):
 
 
 def replay(sub, case):
+    if sub == "notation" and set(case) == {"i"}:
+        return case_nan_notation(case)
+    if sub == "notation" and "left" in case:
+        return case_uncertain_zero(case)
     return {"build": case_build, "convert": case_convert, "arith": case_arith, "notation": case_notation, "format": case_format}[sub](case)
